@@ -110,6 +110,28 @@ def run(ctx):
             op = gen.g_op(rng, kind, depth=1)
             parts_.append(C.msg_from_json({"id": rng.choice([1, 2, 2, 3, 0, 4]), "op": op, "controls": []}).pack(M.PackingOptions()))
         inputs.append((prep, b"".join(parts_), "id-sequences"))
+    # numbers beyond CPython's int -> str conversion limit (4300 digits): message ids, result codes, sizes, tag numbers, each in an otherwise
+    # well-formed message (anything that formats such a number into an error text must still fail closed) — implementation only
+    def tlv(tag, content):
+        return bytes([tag]) + ber.enc_len(len(content)) + content
+
+    for digits in (4299, 4301, 4400, 9000):
+        big = (10 ** digits).to_bytes((10 ** digits).bit_length() // 8 + 1, "big", signed=True)
+        neg = (-(10 ** digits)).to_bytes((10 ** digits).bit_length() // 8 + 1, "big", signed=True)
+        for num in (big, neg):
+            ext_resp = tlv(0x78, tlv(0x0A, b"\0") + tlv(4, b"") + tlv(4, b""))
+            msgs_ = [tlv(0x30, tlv(2, num) + ext_resp),                                                     # response with a huge id
+                     tlv(0x30, tlv(2, num) + tlv(0x77, tlv(0x80, b"1.2"))),                                  # request with a huge id
+                     tlv(0x30, tlv(2, b"\x01") + tlv(0x78, tlv(0x0A, num) + tlv(4, b"") + tlv(4, b""))),     # huge result code
+                     tlv(0x30, tlv(2, b"\x01") + tlv(0x60, tlv(2, num) + tlv(4, b"") + tlv(0x80, b""))),     # huge bind version
+                     tlv(0x30, tlv(2, b"\x02") + tlv(0x63, tlv(4, b"") + tlv(0x0A, num) + tlv(0x0A, b"\0") + tlv(2, b"\0") + tlv(2, b"\0")
+                                                     + tlv(1, b"\0") + tlv(0x87, b"cn") + tlv(0x30, b""))),   # huge scope
+                     tlv(0x30, tlv(2, b"\x02") + tlv(0x63, tlv(4, b"") + tlv(0x0A, b"\0") + tlv(0x0A, b"\0") + tlv(2, num) + tlv(2, b"\0")
+                                                     + tlv(1, b"\0") + tlv(0x87, b"cn") + tlv(0x30, b"")))]   # huge size limit
+            for m_ in msgs_:
+                for prep in ("client_mid", "client_fresh", "server_fresh", "server_mid", "server_binding"):
+                    inputs.append((prep, m_, "huge-int"))
+                    inputs.append((prep, m_ + m_, "huge-int"))
     notifs = []
     samples = []
     for prep, data, kind in inputs:
@@ -125,7 +147,7 @@ def run(ctx):
             for x in v:
                 x.update({"prep": prep, "stream": data.hex()[:4000], "chunks": [c.hex() for c in chunks] if len(data) < 4000 else None})
                 violations.append(x)
-            if hid < ctx.scale(2500, 30000):
+            if hid < ctx.scale(2500, 30000) and kind != "huge-int":     # (such numbers cannot be written as JSON under the same limit)
                 reqs.extend(PR.history_requests(prep, f"h{hid}", chunks))
                 hid += 1
     samples.append({"prep": inputs[-1][0], "bytes": inputs[-1][1].hex()[:200], "kind": inputs[-1][2]})
